@@ -13,6 +13,7 @@ import Pcore.Proofs.FilesTypeset
 import Pcore.Proofs.FilesTermMain
 import Pcore.Proofs.FilesTypesetChild
 import Pcore.Proofs.FilesFuelMono
+import Pcore.Proofs.FilesTypesetDep
 /-!
 # C15 — File-based loading maps names to definition files faithfully
 
@@ -84,8 +85,11 @@ Full statement / proved / missing
 * `C15_typeset_module`, `C15_init_typeset_module`, `C15_member_cached_module` (proved) — the same for a module's loader in
   the DEFAULT topology (child of the global loader, the context's loader): each lookup asks the global loader first, so a
   member costs a placeholder there, one in the module loader and the definition over the latter (`typesetState2`).
-* missing: type sets through the dependency loader (the same resolution with one more cache on the route), several
-  existing ancestors at once; it is false as
+* `C15_typeset_dependency`, `C15_member_cached_dependency` (proved) — a qualified type set `Mod::…` through the DEPENDENCY
+  loader: three placeholders per member (global, module, dependency loader) and the definitions in the dependency loader
+  (`typesetState3`).
+* missing: the module's own (unqualified) name through the dependency loader (the loop over all members), several existing
+  ancestors at once; it is false as
   stated for layouts that define one name twice (`C15_duplicate_redefine`, known finding C15-duplicate-redefine) and the
   error of a misnamed file carries no line (`C15_misnamed_no_line`, known finding C15-misnamed-no-line).  The OS (Walk
   order, permissions, symlinks), the parser and type resolution are parameters (DESIGN.md §5).
@@ -1118,6 +1122,59 @@ example : (∀ o ∈ (runLoads 14 flatCfg {} [["BILLING"], ["Billing", "Invoice"
   have h : ∀ o ∈ (runLoads 14 flatCfg {} [["BILLING"], ["Billing", "Invoice"], ["Other"]]).1, o ≠ .failed .diverges := by
     decide
   exact ⟨h, C15_fuel_irrelevant_seq flatCfg 14 5000 (by decide) _ _ h⟩
+
+/-! ## type sets through the dependency loader (the default context loader) -/
+
+/-- a type set `Mod::…` through the DEPENDENCY loader (module loaders below the global loader): the name is routed to the
+    module its first segment names; the global loader misses completely, the module's file is the only read; every member
+    costs a placeholder in the global loader, one in the module loader, one in the dependency loader and the definition
+    over the latter (kind by position); the type set is defined in the dependency loader and answered through what
+    `SetEntry` returns (fix 80f753b) — exact state `typesetState3` -/
+theorem C15_typeset_dependency (cfg : Cfg) (mod : String) (hv : cfg.via = .d) (hflat : cfg.flat = false)
+    (hmods : cfg.mods.contains mod = true) (hmne : mod ≠ "")
+    (name nm : Name) (hne : name ≠ []) (hqual : qualified name = true) (ts : List String) (p : Path) (ps : List Path)
+    (s : St) (k : Nat) (hk : 3 * (nm.length + 1) + ts.length ≤ k)
+    (hparts : ∃ ps, partsOf name = some ps ∧ ps.head? = some mod)
+    (hsys : sysLoad name = none) (hd : s.get .d (keyOf name) = none)
+    (hqg : QuietAnc cfg .g s name) (hig : idx cfg .g (keyOf name) = [])
+    (hi : idx cfg (.m mod) (keyOf name) = p :: ps)
+    (hb : bodyAt cfg.tree p = some (.typ .typeset nm ts)) (hkey : keyOf nm = keyOf name)
+    (hget : s.get (.m mod) (keyOf name) = none)
+    (hhg : MemHyp cfg .g nm (((s.put .g (keyOf name) none).put (.m mod) (keyOf name) none).addRead p) ts)
+    (hhm : MemHyp cfg (.m mod) nm (((s.put .g (keyOf name) none).put (.m mod) (keyOf name) none).addRead p) ts)
+    (hfreshg : ∀ t ∈ ts, s.get .g (keyOf (nm ++ [t])) = none)
+    (hfreshm : ∀ t ∈ ts, s.get (.m mod) (keyOf (nm ++ [t])) = none)
+    (hfreshd : ∀ t ∈ ts, s.get .d (keyOf (nm ++ [t])) = none) :
+    loadS (k+15) cfg s name =
+      (.found ⟨.typeset, nm⟩, typesetState3 mod name nm ts p (s.put .g (keyOf name) none)) ∧
+    (typesetState3 mod name nm ts p (s.put .g (keyOf name) none)).reads = s.reads ++ [p] ∧
+    ∀ j t, ts[j]? = some t →
+      (typesetState3 mod name nm ts p (s.put .g (keyOf name) none)).get .d (keyOf (nm ++ [t])) =
+        some (some ⟨kindAt j, nm ++ [t]⟩) :=
+  ⟨typeset_dep cfg mod hv hflat hmods hmne name nm hne hqual ts p ps s k hk hparts hsys hd hqg hig hi hb hkey hget hhg hhm
+      hfreshg hfreshm hfreshd,
+    by rw [typesetState3_reads]; rfl,
+    fun j t ht => typesetState3_member mod name nm ts p _ hkey hhm.nodup j t ht⟩
+
+/-- member resolution afterwards through the dependency loader: from its own cache, nothing read, nothing changed -/
+theorem C15_member_cached_dependency (cfg : Cfg) (hv : cfg.via = .d) (name : Name) (s : St) (d : Def) (n : Nat)
+    (hget : s.get .d (keyOf name) = some (some d)) : loadS (n+2) cfg s name = (.found d, s) :=
+  dep_cached cfg hv name s d n hget
+
+/-- non-vacuity: the three-segment type set of `setCfg2` through the dependency loader, from the empty caches -/
+example :
+    QuietAnc (setCfg2 .d) .g {} ["Other", "Sub", "Set"] ∧
+    MemHyp (setCfg2 .d) .g ["Other", "Sub", "Set"]
+      (((({} : St).put .g (keyOf ["Other", "Sub", "Set"]) none).put (.m "other") (keyOf ["Other", "Sub", "Set"]) none).addRead
+        ["modules", "other", "types", "sub", "set.pp"]) ["Leaf", "Twig"] ∧
+    MemHyp (setCfg2 .d) (.m "other") ["Other", "Sub", "Set"]
+      (((({} : St).put .g (keyOf ["Other", "Sub", "Set"]) none).put (.m "other") (keyOf ["Other", "Sub", "Set"]) none).addRead
+        ["modules", "other", "types", "sub", "set.pp"]) ["Leaf", "Twig"] ∧
+    (runLoads 30 (setCfg2 .d) {} [["OTHER", "sub", "SET"], ["Other", "Sub", "Set", "Twig"], ["Other", "Sub", "Set", "Nope"]]).1 =
+      [.found ⟨.typeset, ["Other", "Sub", "Set"]⟩, .found ⟨.object, ["Other", "Sub", "Set", "Twig"]⟩, .notfound] ∧
+    (runLoads 30 (setCfg2 .d) {} [["OTHER", "sub", "SET"], ["Other", "Sub", "Set", "Twig"], ["Other", "Sub", "Set", "Nope"]]).2.reads =
+      [["modules", "other", "types", "sub", "set.pp"]] := by
+  refine ⟨quietAnc_of_check (by decide), memHyp_of_check (by decide), memHyp_of_check (by decide), by decide, by decide⟩
 
 /-! ## negation witnesses for the known findings -/
 
